@@ -225,13 +225,14 @@ func (g *Graph) buildDefs() {
 		for i := 0; i < sig.Params().Len(); i++ {
 			vs = append(vs, sig.Params().At(i))
 		}
-		for i := 0; i < sig.Results().Len(); i++ {
-			if sig.Results().At(i).Name() != "" {
-				vs = append(vs, sig.Results().At(i))
-			}
-		}
 		for _, v := range vs {
 			g.addDef(v, DefParam, nil, 0, f.Type, Point{0, 0})
+		}
+		// named results start at their zero value
+		for i := 0; i < sig.Results().Len(); i++ {
+			if v := sig.Results().At(i); v.Name() != "" && v.Name() != "_" {
+				g.addDef(v, DefZero, nil, 0, f.Type, Point{0, 0})
+			}
 		}
 	}
 	for _, b := range g.Blocks {
